@@ -193,6 +193,28 @@ def foreign_ok(a):
     return links_ok(a) and same_as_source(a)
 
 
+_F16 = []
+
+
+def f16_fixed():
+    """does this library survive `{a: 1, **b, **c}` minus its first entry (finding C13-F16)?  probed once per process"""
+    if not _F16:
+        from fst import FST
+        try:
+            f = FST('x = {a: 1, **b, **c}', 'exec')
+            f.mark()
+            d = f.a.body[0].value
+            del d.keys[0]
+            del d.values[0]
+            f.reconcile()
+            _F16.append(True)
+        except IndexError:
+            _F16.append(False)
+        except Exception:
+            _F16.append(True)
+    return _F16[0]
+
+
 class Ser:
     """One serialisation state per round (shared value / tree-id interning between the marked and the edited tree)."""
 
@@ -241,7 +263,11 @@ class Ser:
         p = vf.parent
         idx = vf.pfield.idx
         if k is None:
-            if p.a.keys[idx] is not None:          # IndexError here = the code's own uncaught IndexError
+            if idx >= len(p.a.keys):
+                if f16_fixed():
+                    return None                    # repaired code: an index past the (edited) keys list is "not a run"
+                raise IndexError('C13-F16')        # unrepaired code: its own uncaught IndexError (the case is skipped)
+            if p.a.keys[idx] is not None:
                 return None
         else:
             kf = getattr(k, 'f', None)
@@ -1188,7 +1214,7 @@ class Mutator:
         return 'imp_relative', 'ImportFrom.module'
 
     def m_imp_level(self, a, ss):
-        c = [s for s in self._nodes(ss, ast.ImportFrom) if s.node.module and '.' not in s.node.module]   # dotted: C13-F11
+        c = [s for s in self._nodes(ss, ast.ImportFrom) if s.node.module]
         if not c:
             return None
         s = self.r.choice(c)
@@ -1201,7 +1227,7 @@ class Mutator:
         if not c:
             return None
         s = self.r.choice(c)
-        s.node.module = self.r.choice([i for i in ('alpha', 'beta_gamma', 'k9') if i != s.node.module])     # not dotted: C13-F12
+        s.node.module = self.r.choice([i for i in ('alpha', 'beta.gamma', 'k9') if i != s.node.module])
         return 'imp_module', 'ImportFrom.module'
 
     def _keywords(self, ss, want_none):
@@ -1249,12 +1275,6 @@ class Mutator:
         if not c:
             return None
         s = self.r.choice(c)
-        try:
-            seg = ast.get_source_segment(self.work.src, s.node) or ''
-        except Exception:
-            seg = ''
-        if not seg.startswith(s.node.name):
-            return None       # dotted name written with whitespace / a continuation inside: C13-F15
         s.node.asname = None if s.node.asname else self.r.choice(IDENTS)
         return 'alias_asname', f'{type(s.parent).__name__}.names'
 
